@@ -433,7 +433,9 @@ func legC12(e *Engine) []Violation {
 			run  func(lw *limitWriter) (int64, error)
 		}
 		var wls []workload
-		for _, bs := range []int{1, 7, 16, 4096} {
+		// small sizes matter: the footer ends in 8,8,8,8,4,4,4-byte writes, and a buffer that is
+		// filled exactly by the last of them is flushed only by the explicit Flush
+		for _, bs := range []int{1, 4, r.Range(2, 6), r.Range(7, 13), 16, 4096} {
 			bs := bs
 			wls = append(wls, workload{fmt.Sprintf("Merger.WriteTo(buf=%d)", bs), func(lw *limitWriter) (int64, error) {
 				return ice.Merge(segs, mkDrops(), bs).WriteTo(lw, lw.ch)
